@@ -251,3 +251,19 @@ PROPS["C17"] = {
         {"name": "TestProp_C17_Idempotent", "build": "inpkg", "quick": {"shards": 4, "checks": 2500, "timeout": 500}, "thorough": {"shards": 8, "checks": 60000, "timeout": 3000}},
     ],
 }
+
+PROPS["C16"] = {
+    "level": "exploration",
+    "technique": "property-based testing (rapid) + exhaustive 64x64 policy-product enumeration against a table model of version negotiation (independent query/tag parser), byte-exact pass-through oracles",
+    "level_text": "fresh conversations under every pair of policy sets and every offer form (peer-built query, crafted version lists, whitespace tags with any version groups at any text position, first D-H Commit of v2/v3); version = max(offered, allowed by responder); forbidden versions leave no trace; pass-through byte-exact",
+    "level_note": "only first negotiations are judged (a committed version is sticky by design); malformed queries without the closing '?' are outside the domain (the specification does not say how to read them)",
+    "rule": ("forms: 0 query built by A's policy delivered to B and the exchange run to completion (every emitted message must carry the negotiated version, both encrypted iff a common version exists); 1 crafted queries (?OTR?, ?OTRv..?, ?OTR?v..?, v1, unknown digits, duplicates, trailing text); "
+             "2 text without markers with base tag + groups {v1,v2,v3,unknown}* inserted at any offset: returned text byte-exact with the tag removed, D-H Commit of the best version iff whitespace-start policy; 3 first D-H Commit of v2/v3 from the reference: D-H Key of that version iff allowed, else no reply and a later allowed offer still works; "
+             "4 no version allowed: Send and Receive return any input (incl. OTR-looking) byte-for-byte; 5 plain text returned byte-exact without reply. Non-trivial: policies differ between the sides or the offer contains a version the receiver forbids."),
+    "assumptions": COMMON_ASSUME,
+    "exhaustive_checks": ["C16policies"],
+    "tests": [
+        {"name": "TestProp_C16_Negotiate", "quick": {"shards": 6, "checks": 500, "timeout": 500}, "thorough": {"shards": 12, "checks": 15000, "timeout": 3000}},
+        {"name": "TestProp_C16_Policies", "kind": "plain", "quick": {"shards": 6, "timeout": 500}, "thorough": {"shards": 8, "timeout": 3000}},
+    ],
+}
